@@ -319,6 +319,60 @@ func (s *session) settle(limit time.Duration) bool {
 	return true
 }
 
+// connTicks reads the connection's tick count without ever waiting for c.Mutex (a handler that panicked
+// may have left it locked).
+func (s *session) connTicks() (n uint64, ok bool) {
+	if s.c.Mutex.TryLock() {
+		n, ok = uint64(s.c.X.Ticks), true
+		s.c.Mutex.Unlock()
+	}
+	return
+}
+
+// waitTick waits until Run has executed the connection's Tick once more (first: once at all - Run ticks
+// in the first round of its loop) and the messages that Tick queued have reached the harness.
+func (s *session) waitTick(first bool, limit time.Duration) bool {
+	t0 := time.Now()
+	var want uint64 = 1
+	for got := false; ; {
+		select {
+		case <-s.runDone:
+			return false
+		default:
+		}
+		if n, ok := s.connTicks(); ok {
+			if !got && !first {
+				want = n + 1
+			}
+			got = true
+			if n >= want {
+				break
+			}
+		}
+		if time.Since(t0) > limit {
+			return false
+		}
+		time.Sleep(200 * time.Microsecond)
+	}
+	time.Sleep(300 * time.Microsecond) // (the count goes up at the start of Tick)
+	for time.Since(t0) <= limit {
+		select {
+		case <-s.runDone:
+			return false
+		default:
+		}
+		if s.c.Mutex.TryLock() {
+			idle, sent := s.c.SendBufProd == s.c.SendBufCons, s.c.X.BytesSent
+			s.c.Mutex.Unlock()
+			if idle && s.p.received() >= sent {
+				return true
+			}
+		}
+		runtime.Gosched()
+	}
+	return false
+}
+
 // frameOf frames (cmd, pl) in clear.
 func frameOf(cmd string, pl []byte) []byte { return wire(cmd, pl, uint32(len(pl))) }
 
@@ -336,6 +390,20 @@ func (r *Runner) runnable(cs Case) bool {
 	}
 	if cs.has("ackgot") {
 		return false // a state that no message history reaches (set directly in the direct stream only)
+	}
+	if n := cs.slowTicks(); n > 0 {
+		// each of them costs PeerTickPeriod (100 ms) of waiting for the real Run: a budget per run; the
+		// direct stream executes every tick of every history
+		if _, seen := r.tickPaid[cs.Pl+fmt.Sprint(cs.Seq)]; !seen {
+			if n > r.TickBudget {
+				return false
+			}
+			r.TickBudget -= n
+			if r.tickPaid == nil {
+				r.tickPaid = map[string]bool{}
+			}
+			r.tickPaid[cs.Pl+fmt.Sprint(cs.Seq)] = true
+		}
 	}
 	return true
 }
@@ -368,8 +436,8 @@ func (r *Runner) DoRun(cs Case) (o Obs, ro RunObs, c *network.OneConnection) {
 	case cs.Cmd == "@wire":
 		encrypted = false
 		r.preset(c, cs)
-	case cs.Pre == "" && len(pl)%2 == 0:
-		handshake = true
+	case cs.Pre == "" && len(pl)%2 == 0 && !cs.reconfigures():
+		handshake = true // (a case with a configuration history starts from the preset state: its first Tick is the connection's first)
 	default:
 		r.preset(c, cs)
 	}
@@ -405,6 +473,22 @@ func (r *Runner) DoRun(cs Case) (o Obs, ro RunObs, c *network.OneConnection) {
 	}
 	captured := r.e.captureStart()
 	t0 := time.Now()
+	// configuration changes at the head of the history: the operator set them before this peer connected
+	lead := 0
+	if cs.reconfigures() {
+		restoreCfg := saveCfg()
+		defer func() {
+			if !o.Hang { // (a stuck Run may hold the config lock)
+				r.e.quiet()
+				restoreCfg()
+				r.e.loud()
+			}
+		}()
+		for lead < len(cs.Seq) && cs.Seq[lead].Cmd == "@cfg" {
+			applyCfg(cs.Seq[lead].Pl)
+			lead++
+		}
+	}
 
 	s := &session{c: c, node: node, p: newPeer(b), runDone: make(chan struct{})}
 	go func() {
@@ -432,10 +516,30 @@ func (r *Runner) DoRun(cs Case) (o Obs, ro RunObs, c *network.OneConnection) {
 	}
 	r.lastRunCollector = false
 	if ok {
-		for _, m := range cs.Seq {
-			mp, _ := hex.DecodeString(m.Pl)
-			if !s.deliver(sec.frame(m.Cmd, mp), limit) {
-				ok = false
+		sent := handshake // something has been delivered to Run on this connection
+		for _, m := range cs.Seq[lead:] {
+			switch m.Cmd {
+			case "@cfg":
+				// the operator reconfigures the running node between two messages of this peer
+				if sent && !s.settle(limit) {
+					ok = false
+				} else {
+					applyCfg(m.Pl)
+					sent = true // (from here on "a Tick after this" means one more Tick)
+				}
+			case "@tick":
+				if sent && !s.settle(limit) {
+					ok = false
+				} else {
+					ok = s.waitTick(!sent, limit)
+					sent = true
+				}
+			default:
+				mp, _ := hex.DecodeString(m.Pl)
+				ok = s.deliver(sec.frame(m.Cmd, mp), limit)
+				sent = true
+			}
+			if !ok {
 				break
 			}
 		}
